@@ -109,7 +109,7 @@ CHECKS = {
              'run feeds the real Coverage verdict and the real analysis warnings for every statement form x position '
              'template to the Lean predicate and diffs the Coverage model (omit count, tree after ast_mod).',
         design_ref='DESIGN.md §5 C05',
-        note='No known finding left for C05; the repaired ones are kept as fixed entries in known_findings.json.'),
+        note='One known finding for C05 (KNOWN-FINDING line, exit 0): an assert(...) / assume(...) call whose argument changes a variable is accepted as fully supported and gets no flow; it is found by a source-level oracle of the harness, the Lean specification follows the code there (DESIGN 10.4); the repaired findings are kept as fixed entries in known_findings.json.'),
     'C07': dict(
         technique='Lean 4 proof (mutual structural induction over the syntax tree on the Coverage/ast_mod model) + differential correspondence and metamorphic runs',
         text='Proved: a fully supported tree is untouched by the removal pass; after the removal pass the syntax check '
